@@ -14,7 +14,7 @@ import (
 
 func (e *Engine) newFnCtx(fn *ssa.Function, spec *FuncSpec) *FnCtx {
 	c := &FnCtx{eng: e, fn: fn, spec: spec, sc: newScript(), heapSorts: map[string]string{}, notes: map[string]bool{}, safetyCtr: map[string]int{},
-		assumed: map[string]bool{}, inlined: map[string]bool{}, localTouched: map[string]bool{}, masks: map[string]string{}, pow2s: map[string]string{}, boxes: map[string]Val{}, deriv: map[string]derivInfo{}}
+		assumed: map[string]bool{}, inlined: map[string]bool{}, localTouched: map[string]bool{}, masks: map[string]string{}, pow2s: map[string]string{}, verAlloc: map[string]string{}, boxes: map[string]Val{}, deriv: map[string]derivInfo{}}
 	if fn != nil {
 		c.funcName = shortFuncName(fn, e.modPath)
 	}
